@@ -257,6 +257,9 @@ func c14Run(c *Ctx, i int, r *gen.R) {
 	}
 	for _, name := range decoration.RegisteredDecorationNames() {
 		name := name
+		if strings.HasPrefix(name, "c14-own-") {
+			continue // names earlier cases of this process registered for themselves: they would crowd out the other formats
+		}
 		rds = append(rds,
 			rd{"reused text wrapper switched to " + name, "text:" + name, func() (string, error) {
 				if _, err := textW.SetDecorationNamed(name); err != nil {
@@ -326,12 +329,17 @@ func c14Run(c *Ctx, i int, r *gen.R) {
 	firstBy := map[string]string{}
 	// the reused wrappers also meet destinations that fail: a render that could not write is over when it returns
 	faulty := []struct {
-		name string
-		to   func(w io.Writer) error
+		name   string
+		to     func(w io.Writer) error
+		format string                 // "" = no fixed format (the text wrapper is restyled by other steps)
+		again  func() (string, error) // the same wrapper's Render
 	}{
-		{"reused csv wrapper", csvW.RenderTo}, {"reused html wrapper (cached template)", htmlW.RenderTo}, {"reused html wrapper with generator", htmlG.RenderTo},
-		{"reused json wrapper", jsonW.RenderTo}, {"reused markdown wrapper", mdW.RenderTo}, {"reused text wrapper", textW.RenderTo},
+		{"reused csv wrapper", csvW.RenderTo, "csv", csvW.Render}, {"reused html wrapper (cached template)", htmlW.RenderTo, "html+caption", htmlW.Render}, {"reused html wrapper with generator", htmlG.RenderTo, "html+generator", htmlG.Render},
+		{"reused json wrapper", jsonW.RenderTo, "json", jsonW.Render}, {"reused markdown wrapper", mdW.RenderTo, "markdown", mdW.Render}, {"reused text wrapper", textW.RenderTo, "", nil},
 	}
+	// right after a render through a long-lived wrapper has failed (by error, by panic, by the goroutine ending),
+	// the next step is a render through that very wrapper: a render that could not write is over when it returns
+	var forced *rd
 	// destinations the caller OWNS and goes on using: long-lived wrappers of their own (whose first destination
 	// ever may thus be one of these) render into them in any order, again and again, and the caller writes lines
 	// of its own in between.  In the end every destination holds exactly what was sent to it, in order.
@@ -380,7 +388,7 @@ func c14Run(c *Ctx, i int, r *gen.R) {
 	}
 	n := r.Range(5, 30)
 	for k := 0; k < n; k++ {
-		if r.Chance(1, 5) {
+		if forced == nil && r.Chance(1, 5) {
 			d := owned[r.Intn(len(owned))]
 			x := ownedRenders[r.Intn(len(ownedRenders))]
 			if r.Bool() {
@@ -406,14 +414,14 @@ func c14Run(c *Ctx, i int, r *gen.R) {
 			}
 			continue
 		}
-		if r.Chance(1, 10) {
+		if forced == nil && r.Chance(1, 10) {
 			cs.Renders = append(cs.Renders, fmt.Sprintf("the application registers %s under the name %s (again)", ownDescs[ownNext], ownName))
 			decoration.RegisterDecorationName(ownName, ownDecos[ownNext])
 			ownNext = 1 - ownNext
 			c.Rec.Count("names_registered_again_between_renders_of_wrappers_styled_by_that_name", 1)
 			continue
 		}
-		if r.Chance(1, 12) {
+		if forced == nil && r.Chance(1, 12) {
 			// looking at the table between renders (a log line, a debugger) is not a change either
 			cs.Renders = append(cs.Renders, "the table, its rows and cells are formatted with %v and %#v")
 			_ = fmt.Sprintf("%v %#v", t, t)
@@ -423,8 +431,11 @@ func c14Run(c *Ctx, i int, r *gen.R) {
 			c.Rec.Count("observations_through_fmt_between_renders", 1)
 			continue
 		}
-		if r.Chance(1, 6) {
+		if forced == nil && r.Chance(1, 6) {
 			f := faulty[r.Intn(len(faulty))]
+			if f.again != nil {
+				forced = &rd{f.name + " renders again, right after its destination failed", f.format, f.again}
+			}
 			if r.Chance(1, 4) {
 				// the destination leaves Write by panicking (an aborted HTTP handler, a buffer that refuses to grow) and
 				// the application recovers: the wrapper and the table are as usable afterwards as before
@@ -456,6 +467,10 @@ func c14Run(c *Ctx, i int, r *gen.R) {
 			continue
 		}
 		x := rds[r.Intn(len(rds))]
+		if forced != nil {
+			x, forced = *forced, nil
+			c.Rec.Count("renders_through_a_wrapper_right_after_its_destination_failed", 1)
+		}
 		cs.Renders = append(cs.Renders, x.name)
 		out, err := x.f()
 		c.Keep(out, x.name)
